@@ -513,7 +513,7 @@ theorem inv_step (s s' : St) (a : Act) (hI : Inv s) (h2 : Inv2 s) (hs : step s a
         by_cases e : tok = t
         · subst e; rw [if_pos rfl] at h; exact hct _ (by omega)
         · rw [if_neg e] at h; exact hct _ (by omega)
-  | ctorFail i =>
+  | ctorFail i _ =>
     obtain ⟨hsub, hsafe, honce, hborn, hrl, hsn, hdj, hrel, hct⟩ := hI
     simp only [step] at hs
     split at hs
@@ -652,7 +652,7 @@ theorem inv2_step (s s' : St) (a : Act) (h2 : Inv2 s) (hs : step s a = some s') 
     · simp at hs; subst hs
       exact ⟨fun h => by rw [flushAll_no_parked] at h; omega, by simp⟩
     · simp at hs
-  | ctorFail i =>
+  | ctorFail i _ =>
     simp only [step] at hs
     split at hs
     · rename_i t ht
@@ -771,7 +771,7 @@ theorem c11_done_monotone (s s' : St) (a : Act) (tok : Nat) (hs : step s a = som
     split at hs
     · simp at hs; subst hs; exact hd
     · simp at hs
-  | ctorFail i =>
+  | ctorFail i _ =>
     simp only [step] at hs
     split at hs
     · split at hs
@@ -873,7 +873,7 @@ theorem c11_grace (s s' : St) (a : Act) (hs : step s a = some s') (hp : s.presen
     split at hs
     · simp at hs; subst hs; exact hp
     · simp at hs
-  | ctorFail i =>
+  | ctorFail i _ =>
     simp only [step] at hs
     split at hs
     · split at hs
@@ -1165,7 +1165,7 @@ theorem listed_step (s s' : St) (a : Act) (hI : Inv s) (hL : Listed s) (hs : ste
         · exact .inl h
         · right; omega
       · subst hx; right; simp [regTok]
-  | ctorFail i =>
+  | ctorFail i _ =>
     simp only [step] at hs
     split at hs
     · rename_i t ht
@@ -1304,7 +1304,7 @@ theorem c11_listed_built_or_building (as : List Act) (tok : Nat) (h : tok ∈ (r
 over, the tree stays for now (the grace period runs if no other instance uses it); later messages for the token
 are dropped (`c11_late_dropped`) and the constructor is never called for it again (`c11_constructed_once`). -/
 theorem c11_failed_constructor_cleans_up (s s' : St) (i : Nat) (t : Th) (ht : s.thr[i]? = some t) (hpc : t.pc = .bind)
-    (hs : step s (.ctorFail i) = some s') :
+    (n : Bool) (hs : step s (.ctorFail i n) = some s') :
     t.tok ∉ s'.live ∧ t.tok ∈ s'.doneToks ∧ s'.handed = s.handed ∧ s'.present = s.present ∧
     (∀ x, x ≠ t.tok → (x ∈ s'.live ↔ x ∈ s.live)) ∧ (s'.live = [] → s'.armed = true) := by
   simp only [step, ht, hpc, if_true] at hs
@@ -1317,16 +1317,46 @@ theorem c11_failed_constructor_cleans_up (s s' : St) (i : Nat) (t : Th) (ht : s.
 listed although every thread has ended and nobody holds the instance (the caller got the error): no removal is
 scheduled, the tree is never released.  The code as it is unlists it and the tree goes after the grace period. -/
 theorem c11_old_failed_local_start_stays_listed :
-    let sch : List Act := [.localStart 1, .thread 0, .ctorFail 0]
+    let sch : List Act := [.localStart 1, .thread 0, .ctorFail 0 false]
     ((runOld5 {} sch).live = [1] ∧ (runOld5 {} sch).thr.all (fun t => t.pc == .fin) = true ∧
       (runOld5 {} sch).armed = false ∧ step (runOld5 {} sch) .expire = none) ∧
     ((run {} sch).live = [] ∧ (run {} sch).doneToks = [1] ∧ (run {} sch).armed = true ∧
       (run {} (sch ++ [.expire])).present = false) := by decide
 
+/-- the three ways a constructor produces no instance for an arrival: it returns an error; it panics (a service's
+`NewProtocol`: `serviceManager.newProtocol` recovers the panic into an error); it returns `(nil, nil)` -/
+inductive NoInstance where | error | panic | nilNil deriving DecidableEq, Repr
+
+def noInstanceAct (i : Nat) : NoInstance → Act
+  | .error => .ctorFail i false
+  | .panic => .ctorFail i false
+  | .nilNil => .ctorFail i true
+
+/-- **whatever way the constructor fails, nothing stays behind**: for each of the three outcomes `TransmitMsg` ends in
+`nodeDelete` — the node is unlisted, the token marked finished (later messages are dropped, the constructor never runs
+for it again), nothing is handed over, the other instances are untouched, and the removal of the tree is scheduled
+when nothing else is listed. -/
+theorem c11_every_constructor_failure_cleans_up (s s' : St) (i : Nat) (t : Th) (ht : s.thr[i]? = some t)
+    (hpc : t.pc = .bind) (o : NoInstance) (hs : step s (noInstanceAct i o) = some s') :
+    t.tok ∉ s'.live ∧ t.tok ∈ s'.doneToks ∧ s'.handed = s.handed ∧ s'.present = s.present ∧
+    (∀ x, x ≠ t.tok → (x ∈ s'.live ↔ x ∈ s.live)) ∧ (s'.live = [] → s'.armed = true) := by
+  cases o <;> exact c11_failed_constructor_cleans_up s s' i t ht hpc _ hs
+
+/-- **`TransmitMsg` as it was returned without a trace when the constructor gave neither an instance nor an error**: the
+node stays listed although every thread has ended and no instance exists (nobody can declare it done), no done mark,
+no removal scheduled: the tree is never released (and on the real code every later message for the token runs the
+constructor again).  The code as it is unlists it, marks it and the tree goes after the grace period. -/
+theorem c11_old_nil_instance_stays_listed :
+    let sch : List Act := [.arrive 240 5, .thread 0, .treeResp, .thread 0, .thread 0, .thread 0, .ctorFail 0 true]
+    ((runOld5 {} sch).live = [240] ∧ (runOld5 {} sch).doneToks = [] ∧ (runOld5 {} sch).thr.all (fun t => t.pc == .fin) = true ∧
+      (runOld5 {} sch).armed = false ∧ step (runOld5 {} sch) .expire = none) ∧
+    ((run {} sch).live = [] ∧ (run {} sch).doneToks = [240] ∧ (run {} sch).handed = [] ∧ (run {} sch).armed = true ∧
+      (run {} (sch ++ [.expire])).present = false) := by decide
+
 /-- non-vacuity: the constructor of an arrival fails while another instance is listed (tree stays, not armed); a late
 message for the failed token is dropped; a bad-token message while an instance is listed does not arm the removal -/
 example :
-    let sch : List Act := [.localStart 1, .thread 0, .thread 0, .arrive 2 5, .thread 1, .thread 1, .thread 1, .ctorFail 1,
+    let sch : List Act := [.localStart 1, .thread 0, .thread 0, .arrive 2 5, .thread 1, .thread 1, .thread 1, .ctorFail 1 false,
       .arrive 2 6, .thread 2, .thread 2, .arrive 1000 7, .thread 3, .thread 3]
     (run {} sch).live = [1] ∧ (run {} sch).doneToks = [2] ∧ (run {} sch).constructed = [1, 2] ∧ (run {} sch).handed = [] ∧
     (run {} sch).armed = false ∧ (run {} sch).present = true := by decide
@@ -1559,7 +1589,7 @@ def treeOps (s : C11.St) : C11.Act → List VOp
   | .peerReq => []                                       -- `treeStorage.Get`: no refresh
   | .doneRefused _ => []
   | .treeResp => [.set]                                  -- `RegisterTree`
-  | .ctorFail i => match s.thr[i]? with                  -- `nodeDelete`: `cleanTreeStorage`
+  | .ctorFail i _ => match s.thr[i]? with                  -- `nodeDelete`: `cleanTreeStorage`
       | some t => if t.pc = .bind ∧ s.live.filter (· != t.tok) = [] then [.remove] else []
       | none => []
 
@@ -1651,7 +1681,7 @@ theorem c11_model_uses_store_ops (s s' : C11.St) (a : C11.Act) (h : C11.step s a
     split at h
     · simp at h; subst h; simp [treeOps, vstep, cview]
     · simp at h
-  | ctorFail i =>
+  | ctorFail i _ =>
     simp only [C11.step] at h
     split at h
     · rename_i t ht
